@@ -302,6 +302,12 @@ class ModelGen:
         itf = M.Interface([name])
         fqn = node.fqn + [name]
         nested = rng.random() < 0.5 or self.o.mc_enum_family
+        if self.o.mc_shape is not None and not self.o.mc_enum_family:
+            # where the claim enum lives is cycled, not drawn: inside the interface, or outside
+            # it (at namespace level, shared with other interfaces)
+            nested = self.o.mc_shape % 2 == 0
+            if not nested and not [e for e in self.enums if self._enum_visible(e[0], fqn)]:
+                self.add_enum(node)
         prefer_reply = None
         if nested or not [e for e in self.enums if self._enum_visible(e[0], fqn)]:
             en = fresh(rng, {name}, 'camel')
